@@ -27,11 +27,15 @@ DYN_IDS = ['R1', 'R2', 'R10', 'G1', 'Vs', 'Vq', 'V1', 'Is', 'Iq', 'I1', 'A', 'B'
            '1', '2', '10', '9', 'U', 'q', 'K', 'M', 'H1', 'E', 'X', 'Y', 'W', 'b', 'c']
 
 
-def dyn_circuit(rng, max_nodes=6, lossy=0.0, sources=('dc_voltage_source', 'dc_current_source')):
+def dyn_circuit(rng, max_nodes=6, lossy=0.0, sources=('dc_voltage_source', 'dc_current_source', 'dc_voltage_source', 'dc_current_source',
+                                                     'ac_voltage_source', 'periodic_voltage_source')):
     """RLC + ideal DC-type sources; retried until non-degenerate (exact)."""
     for _ in range(60):
         cd = GC.random_circuit(rng, max_nodes=max_nodes, max_comps=9, passives=['resistor', 'resistor', 'conductance'], n_reactive=(1, 4),
                                sources=list(sources), n_sources=(1, 3), ground_prob=0.75, lossy=lossy, id_pool=DYN_IDS)
+        for c in cd['components']:                  # a DC source whose nominal value is 0 is still an input of the dynamic model
+            if c['ctor'] == 'dc_voltage_source' and rng.random() < 0.15:
+                c['args']['V'] = 0.0
         ok, _ = dynamics.non_degenerate(cd)
         if ok:
             return cd
@@ -124,9 +128,11 @@ def judge(case, ctx, prefix='C10'):
     order = list(cv) + list(lv)
     from CircuitCalculator.Network.NodalAnalysis.node_analysis import nodal_analysis_coefficient_matrix
     try:
-        kap = float(np.linalg.cond(nodal_analysis_coefficient_matrix(net).real))       # sizes the tolerance only
+        Mlib = nodal_analysis_coefficient_matrix(net).real                               # sizes the tolerance only
+        kap = float(np.linalg.cond(Mlib))
+        d_scale = max(1.0, float(np.max(np.abs(np.linalg.inv(Mlib)))))                   # natural size of a transfer entry (largest transimpedance)
     except Exception:
-        kap = float('inf')
+        kap, d_scale = float('inf'), 1.0
     id_tol = max(1e-7, 256 * kap * 2.0 ** -53)
     if not kap < 1e10:
         order = []
@@ -144,7 +150,7 @@ def judge(case, ctx, prefix='C10'):
         e = np.zeros(len(order)); e[k] = 1
         sc = max(1.0, float(np.max(np.abs(r))))
         # the states ARE the capacitor voltages / inductor currents: each is exactly one state (any consistent order), no feedthrough
-        if np.max(np.abs(r - e)) > id_tol * sc or np.max(np.abs(np.asarray(drow).reshape(-1))) > id_tol * max(1.0, float(np.max(np.abs(D))) if D.size else 1.0) or k in used:
+        if np.max(np.abs(r - e)) > id_tol * sc or np.max(np.abs(np.asarray(drow).reshape(-1))) > id_tol * max(d_scale, float(np.max(np.abs(D))) if D.size else 1.0) or k in used:
             ctx.violation(f'{prefix}/state-identity/{"capacitor" if sid in cv else "inductor"}/{okey}',
                           f'the {"voltage" if sid in cv else "current"} of {sid!r} is not one state of its own: C-row {r!r}, D-row {np.asarray(drow).reshape(-1)!r}' + (f' (state {k} already stands for {used[k]!r})' if k in used else ''), {'order_class': oc})
             break
